@@ -82,8 +82,8 @@ def gen_groups(run, thorough):
                 continue
             variants.append("W P=%s D=%s:%d:%d E=%s B=%d K=%d" % (params2, kind, dlen, seed, e, b, k))
         groups.append(("chunking/entry-point", label, variants))
-        # quality 10 is left out: there the one-shot function has a compressor of its own (BrotliCompressBufferQuality10,
-        # as in the reference encoder), so it is a different computation, not another call slicing of the stream
+        # quality 10 is left out: there the one-shot function deliberately runs another configuration (quality 9 with the
+        # q9_5 hasher, `is_9_5` in encoder_compress), so it is a different computation, not another call slicing
         if plain and hint == dlen and dlen > 0 and "1:10" not in pl:
             groups.append(("one-shot-vs-stream", label, [variants[0], "W P=%s D=%s:%d:%d E=oneshot" % (params2, kind, dlen, seed)]))
     # C: one/two-pass qualities: a single chunk larger than every internal block size, with output space
